@@ -56,6 +56,11 @@ type layout struct {
 	Warm, Record                bool
 }
 
+type group struct {
+	Cells []int            `json:"cells"`
+	Acc   map[string][]int `json:"acc"`
+}
+
 type arrays struct {
 	P, S, I, O []float64
 }
@@ -69,6 +74,9 @@ type result struct {
 	PHex    []string            `json:"p_hex,omitempty"`
 	Cells   []map[string][]int  `json:"cells,omitempty"` // per cell: "RI","RS","RO","RP","WI","WS","WO","WP","UI","US","UO","UP" sorted offsets
 	Stray   []string            `json:"stray,omitempty"` // accesses by goroutines that could not be attributed to a cell
+	Groups  []group             `json:"groups,omitempty"` // goroutines that handled SEVERAL cells (not the modelled structure)
+	MaxCellsPerGoroutine int    `json:"max_cells_per_goroutine"`
+	Goroutines int              `json:"goroutines"`
 	NAcc    int                 `json:"n_accesses"`
 	Changed map[string]int      `json:"changed,omitempty"`
 	Digest  string              `json:"digest,omitempty"` // sha256 of the output and state arrays after the vectorised run
@@ -556,6 +564,20 @@ func runCase(t []string) *result {
 			s[key][int(a.off)] = true
 		}
 		// attribute goroutines to cells: by the output / state row they write (or read)
+		cellsOf := func(s sets) []int {
+			cells := map[int]bool{}
+			for _, key := range []string{"VO", "VS"} {
+				for c := range s[key] {
+					cells[c] = true
+				}
+			}
+			var l []int
+			for c := range cells {
+				l = append(l, c)
+			}
+			sort.Ints(l)
+			return l
+		}
 		cellOf := func(s sets) int {
 			// the cell index the goroutine used when slicing the whole outputs / states arrays
 			cells := map[int]bool{}
@@ -604,10 +626,18 @@ func runCase(t []string) *result {
 				}
 				continue
 			}
+			res.Goroutines++
 			c := cellOf(s)
 			if c == -2 {
-				res.Stray = append(res.Stray, fmt.Sprintf("goroutine %d slices the outputs / states arrays at more than one cell index", g))
+				cl := cellsOf(s)
+				if len(cl) > res.MaxCellsPerGoroutine {
+					res.MaxCellsPerGoroutine = len(cl)
+				}
+				res.Groups = append(res.Groups, group{Cells: cl, Acc: flat})
 				continue
+			}
+			if res.MaxCellsPerGoroutine < 1 {
+				res.MaxCellsPerGoroutine = 1
 			}
 			if c < 0 || c >= L.N {
 				if L.T > 0 || L.K > 0 {
